@@ -36,7 +36,7 @@ def workload(tier, rng, acc):
     for (k, r) in acc:
         n = k + r
         p = P(5, k, r, length=gen.need_len(5, k, 0))
-        prnd = P(5, k, r, length=rng.choice([1, 3, 8, 17]), payload="rnd", align=rng.choice([0, 3]))
+        prnd = P(5, k, r, length=rng.choice([1, 3, 8, 17]), payload="rnd", align=gen.pick_align(rng))
         execs.append(gen.encode_exec(p, slots=["buf", "null"]))
         execs.append(gen.encode_exec(prnd))
         # the same repair symbols asked for again after a source symbol changed (same session, same buffers)
